@@ -8,6 +8,8 @@
 // seams that realise every op's probe-responder / durability-ack sets.
 //
 // ops (all fields space separated):
+//   cfg N Q CAP [H K [U]]             (U=1: commits carry ServerAllocatedMessageIDs=true and records
+//                                     without idempotency key: empty FromUID / ClientMsgNo)
 //   cfg N Q CAP [H K]                 first op of a case (else defaults 3 2 2 0 0); H=1: the round's
 //                                     foreground hedge follower is admitted at once; K=1: voters are real
 //                                     MessageDB stores (channelstore.NewMessageDBFactory) instead of memory
@@ -56,6 +58,7 @@ type replRunner struct {
 	cap     int
 	hedge   bool
 	kind    int
+	unkeyed bool   // server-allocated message ids, records without idempotency key
 	salt    uint64 // per-case salt of message ids (MessageDB indexes message ids DB-wide)
 	dbs     []*channelstore.MessageDBFactory
 	dirs    []string
@@ -143,6 +146,7 @@ func (r *replRunner) configure(n, q, cap int, hedge bool, kind int) {
 		replChannelID = ch.ChannelID{ID: fmt.Sprintf("verif%d", replCaseSeq), Type: 1}
 	}
 	r.n, r.q, r.cap, r.hedge, r.kind = n, q, cap, hedge, kind
+	r.unkeyed = false
 	r.nodes = nil
 	r.owner = map[replication.AuthorityID]int{}
 	r.digests = map[ch.EntryDigest]int{}
@@ -401,14 +405,21 @@ func (r *replRunner) Step(op string) string {
 
 func (r *replRunner) exec(f []string) string {
 	if f[0] == "cfg" {
-		if r.started || (len(f) != 4 && len(f) != 6) {
+		if r.started || (len(f) != 4 && len(f) != 6 && len(f) != 7) {
 			return "bad-op"
 		}
 		n, ok1 := atoiU(f[1])
 		q, ok2 := atoiU(f[2])
 		cp, ok3 := atoiU(f[3])
-		var h, k uint64
-		if len(f) == 6 {
+		var h, k, u uint64
+		if len(f) == 7 {
+			var ok6 bool
+			u, ok6 = atoiU(f[6])
+			if !ok6 || u > 1 {
+				return "bad-op"
+			}
+		}
+		if len(f) >= 6 {
 			var ok4, ok5 bool
 			h, ok4 = atoiU(f[4])
 			k, ok5 = atoiU(f[5])
@@ -421,6 +432,7 @@ func (r *replRunner) exec(f []string) string {
 		}
 		r.started = true
 		r.configure(int(n), int(q), int(cp), h == 1, int(k))
+		r.unkeyed = u == 1
 		return "ok"
 	}
 	r.started = true
@@ -539,6 +551,12 @@ func (r *replRunner) exec(f []string) string {
 		}
 		prop := replication.Proposal{
 			Key: replKey, Expected: id, CommandID: replCmdID(c), Records: replRecords(r.salt, epoch, c, int(k), int(p)),
+		}
+		if r.unkeyed {
+			prop.ServerAllocatedMessageIDs = true
+			for j := range prop.Records {
+				prop.Records[j].FromUID, prop.Records[j].ClientMsgNo = "", ""
+			}
 		}
 		r.ack = ack
 		rc, err := nd.log.Commit(prop)
@@ -689,6 +707,7 @@ type replGenParams struct {
 	pRepair       int // weight of follower gap repair ops
 	pMdb          int // % of cases whose voters are real MessageDB stores
 	pSameTerm     int // % of cases starting with the same-term divergent-tail template
+	pUnkeyed      int // % of cases on MessageDB with server-allocated, unkeyed records (cap 1)
 }
 
 type replAuth struct{ e, t, f uint64 }
@@ -1116,7 +1135,12 @@ func replGenCase(g *Gen, p replGenParams) {
 		kind = 1
 		g.Count("cfg:store=messagedb")
 	}
-	g.Op("cfg", "%d %d %d %d %d", s.n, s.q, cp, hedge, kind)
+	if g.R.Chance(p.pUnkeyed) {
+		g.Count("cfg:store=messagedb-unkeyed")
+		g.Op("cfg", "%d %d 1 %d 1 1", s.n, s.q, hedge)
+	} else {
+		g.Op("cfg", "%d %d %d %d %d", s.n, s.q, cp, hedge, kind)
+	}
 	s.up = make([]bool, s.n)
 	for i := range s.up {
 		s.up[i] = true
